@@ -78,6 +78,12 @@ func c13Packets(c *sim.Ctx) ([]mq.Packet, []string) {
 		switch t.Pick(4, 2, 2) {
 		case 1: // CONNECT whose will is also used directly
 			a := gen.Packet(t, gen.Cfg{CanSet: CanSet, Types: []byte{ref.Connect}, NoHuge: true})
+			if a.Will != nil && t.Bool(1, 12) {
+				// a PUBLISH with a large payload attached as the will (more than the 65535
+				// bytes a will payload can carry: constructible, not encodable as MQTT)
+				a.Will.Payload = make([]byte, 65536+t.Int(5000))
+				c.Count("probe.will-payload-beyond-65535-bytes")
+			}
 			if p, _, err := buildGuard(a, t); err == nil {
 				ps = append(ps, p)
 				hows = append(hows, "CONNECT built")
